@@ -158,7 +158,7 @@ func (this *Allocator) run() {
 								log.WithFields(log.Fields{"partition_id": partition.id, "dataset_id": partition.dataset.id}).Errorf("Partition unloadRaft panicked: %v", r)
 							}
 						}()
-						partition.unloadRaft()
+						partition.unloadRaft(true)
 					}(_partition)
 				}
 			}
